@@ -318,8 +318,14 @@ StatsClause(e, cnt, st) ==       \* "" or the failing statistics clause of the v
             ELSE IF e.out.categoryCount # st.cc THEN "CategoryCount"
             ELSE IF ~CategoricalProbOK(e, cnt, st.ncat, st.cc) THEN "SmoothedProb" ELSE ""
 
+(* the factors of the arbitrary-precision cost fit (else the query is not decided: "skip") *)
+GaussFits(cnt, s1, V, pos, ref, q) ==
+    /\ \A j \in 1..Len(q) : V[ref][j] <= FactorLimit
+    /\ \A c \in pos : \A j \in 1..Len(q) : Abs(cnt[c] * q[j] - s1[c][j]) <= FactorLimit
+
 GaussQueryVerdict(e, cls, cnt, st, V, pos, ref, q, pred) ==
     IF ~GaussFamilyOn(e, cnt, V, pos, ref) THEN "skip"
+    ELSE IF ~GaussFits(cnt, st.s1, V, pos, ref, q) THEN "skip"
     ELSE GaussVerdictOn(cls, [c \in 1..Len(cls) |-> IF c \in pos THEN GaussCostRef(cnt, st.s1, V, ref, q, c) ELSE <<0>>],
                         pos, pred)
 
